@@ -6,7 +6,7 @@
    for k = 1..K and fails closed on any difference.  This exercises Extraction + ExtrOcamlBasic + the OCaml compiler on
    every layer of the model (all learning and neighbourhood policies, facade, warm start). *)
 From Coq Require Import ZArith List Bool QArith Qcanon.
-From MW Require Import Num Assoc Rng Par CF Matrix Lin Warm Nbr Clu Tree Mab QcInst.
+From MW Require Import Num Assoc Rng Par CF Matrix Lin Warm Nbr Clu Tree Mab Series QcInst.
 Import ListNotations.
 Local Open Scope Z_scope.
 
@@ -131,5 +131,7 @@ Definition selfcheck_case (k : Z) : list Z :=
   let warm := match i with ICf _ | ILin _ => true | _ => false end in
   let '(ds, rs, c, s1) := sc_batch s0 6 sc_arms binary in
   let ops := Fit ds rs (if ctx then Some c else None) (sc_oracle 6) :: sc_ops 7 s1 sc_arms 11 ctx binary warm in
-  let (m, outs) := run QcNum Z.eqb ToyRng (mkMab i false (Z.to_nat (k mod 5))) ops in
+  (* through the facade layer of Series.v (width validation of queries); every third case ends with a query of another width *)
+  let ops' := map (@SPlain Qc Z) ops ++ (if Z.eqb (k mod 3) 0 then [SPlain (PredictExp (if ctx then Some [[qz 1; qz 2; qz 3]] else None) (sc_oracle 1)); SPlain (Predict (if ctx then Some [[qz 1; qz 2]] else None) (sc_oracle 1))] else []) in
+  let (m, outs) := srun QcNum Z.eqb ToyRng (mkMab i false (Z.to_nat (k mod 5))) ops' in
   flat_map enc_out outs ++ (-9) :: m_arms m ++ (-9) :: mab_cold_arms Z.eqb m.
